@@ -280,6 +280,13 @@ def run(ctx: Context, rep) -> None:
              and is_iterator_expr(ctx, imap, n.value)]
     bound = {t.id for n in iters for t in (n.targets if isinstance(
         n, ast.Assign) else [n.target]) if isinstance(t, ast.Name)}
+    # every binding of the name must be an iterator object
+    for n in imap.body_nodes():
+        if isinstance(n, (ast.Assign, ast.AnnAssign)) and n.value is not None \
+                and n not in iters:
+            for t in (n.targets if isinstance(n, ast.Assign) else [n.target]):
+                if isinstance(t, ast.Name):
+                    bound.discard(t.id)
     rep.ob("C13.tail", bool(pulled) and pulled <= bound, loc=imap.loc(),
            where=imap.qualname,
            construct=f"pulled from {sorted(pulled)}, bound to an iterator "
